@@ -466,6 +466,13 @@ class C04(Prop):
         return impl, model, spec, rep, data, params
 
     @staticmethod
+    def no_element_left(spec):
+        """every element column is empty in every line (LDR drops them all): an image without a single element is outside
+        the property's quantifier (1..k elements); what pewlib returns for it - an array without fields, an exception - is
+        not judged"""
+        return isinstance(spec, dict) and "image" in spec and not spec["image"]["names"]
+
+    @staticmethod
     def out_of_domain(rep):
         # a stamp that is no valid date / a leap second / a month or day written with one digit (not what the instrument
         # writes): the property does not say what the import does with such a directory (time.strptime rejects the first
@@ -529,6 +536,9 @@ class C04(Prop):
         else:
             feats = {f for f in feats if not f.startswith(("primer-", "two-primers"))}
         empty = not lines
+        if self.no_element_left(spec):
+            empty = True
+            feats.add("no-element-left-unjudged")
         nontrivial = n >= 2 or any(e["role"] != "line" for e in entries)
         if self.out_of_domain(rep):
             # whether pewlib does what the model says (ValueError exactly when time.strptime rejects a stamp) is recorded only
@@ -650,8 +660,9 @@ class C04(Prop):
                     hcalls.append({"c": "auto", "p": pathidx[st["slot"]], "pi": pi})
                 pos_of[len(impl)] = (len(hcalls) - 1, rep["und_set"], mo.get("image", {}).get("bits") if isinstance(mo, dict) else None)
                 tag = {"step": i, "path": st["slot"], "call": call}
-                if self.out_of_domain(rep) or nlines == 0:
+                if self.out_of_domain(rep) or nlines == 0 or self.no_element_left(sp):
                     im = mo = sp = {"not-judged": True}
+                    feats.add("history-step-unjudged")
                 else:
                     judged += 1
                 hyp = hyp and rep["hyp"]
